@@ -174,9 +174,12 @@ class NeuralUCB(RLAlgorithm):
         )
         # NOTE: Inverse of the regularised (empty) Gram matrix lambda * I
         self.sigma_inv = torch.eye(self.numel).to(self.device) / self.lamb
+        # NOTE: theta_0 is the constant initial parameter vector of the regulariser: it must
+        # not stay attached to the graph of the live parameters (a clone would otherwise keep a
+        # tensor that back-propagates into its parent's parameters)
         self.theta_0 = torch.cat(
             [w.flatten() for w in self.exp_layer.parameters() if w.requires_grad]
-        )
+        ).detach()
 
     def get_action(
         self, obs: ObservationType, action_mask: Optional[ArrayLike] = None
